@@ -72,8 +72,10 @@ void run_case(Tape& t, Ctx& ctx) {
     uint64_t a = t.u8() % p, b = t.u8() % p, c = t.u8() % p;
     ensure_characteristic(p);
     ctx.desc << "exhaustive Shared_Zp_field_element p=" << p << " (" << a << "," << b << "," << c << ")\n";
-    if (a == p - 1 || b == p - 1 || c == p - 1) ctx.hit("operand_p_minus_1");
-    ctx.mark_nontrivial();
+    if (a == p - 1 || b == p - 1 || c == p - 1) {
+      ctx.hit("operand_p_minus_1");
+      ctx.mark_nontrivial();
+    }
     check_elem_triple<SF>(ctx, p, a, b, c);
     check_elem_inverse<SF>(ctx, p, a, (unsigned int)(c));
     check_elem_mixed<SF, int>(ctx, p, a, int(b));
